@@ -614,6 +614,19 @@ def eval_map_rects(ctx, map_size, gfx_size):
                 break
         if prob:
             break
+    if prob is None:
+        # the documented defaults: one tile
+        o, g = mk()
+        (c, r), = a.call(o, 'get_rect_tiles', [5, 6])
+        if r[0] == 'raise':
+            prob = 'get_rect_tiles(5, 6) raises {}'.format(r[1].tname)
+        else:
+            rows = [a.cx.items(row) for row in a.cx.items(r[1])]
+            if [len(rw) for rw in rows] != [1] or \
+                    _b8(rows[0][0]) != _b8(cell(5, 6)):
+                prob = 'get_rect_tiles(5, 6) with the default size returns ' \
+                    'rows of {} cells instead of the one tile'.format(
+                        [len(rw) for rw in rows])
     out.append(('R-C17-inverse', 'get_rect_tiles', 'get_rect_tiles returns '
                 'the addressed cells row by row, 0 beyond column 127 / row '
                 '63', prob))
